@@ -17,12 +17,14 @@ use crate::Sink;
 fn wait_done(ack: &Arc<tinylfu_cached::cache::command::acknowledgement::CommandAcknowledgement>) -> CommandStatus {
     let waker = crate::noop_waker();
     let mut context = std::task::Context::from_waker(&waker);
-    let deadline = Instant::now() + Duration::from_secs(20);
+    // about 20 s, counted in this thread's own ticks (a frozen process has not waited: see `wait_settled_ticks`)
+    let mut waited = 0u32;
     loop {
         let mut handle = ack.handle();
         if let std::task::Poll::Ready(status) = std::future::Future::poll(std::pin::Pin::new(&mut handle), &mut context) { return status; }
-        if Instant::now() > deadline { return CommandStatus::Pending; }
-        std::thread::yield_now();
+        waited += 1;
+        if waited > 21_000 { return CommandStatus::Pending; }
+        if waited > 1_000 { std::thread::sleep(Duration::from_millis(1)); } else { std::thread::yield_now(); }
     }
 }
 
